@@ -737,8 +737,8 @@ pub fn def() -> CheckDef {
                rejected at / accepted on a bound, (b) a Token-2022 mint with >=2 extensions incl. a badge-gated one.",
         assumptions: vec!["nsvm runtime as in DESIGN.md §5", "mint bytes are built directly (the domain of the admission check); malformed TLV may already be refused by the token program or Anchor"],
         subs: vec![
-            sub("params", 4000, 150_000, param_case, |c: &ParamCase, l: &mut Local| check_params(c, l)),
-            sub("mints", 20_000, 1_000_000, mint_case, |c: &MintCase, l: &mut Local| check_mint(c, l)),
+            sub("params", 40_000, 1_000_000, param_case, |c: &ParamCase, l: &mut Local| check_params(c, l)),
+            sub("mints", 150_000, 5_000_000, mint_case, |c: &MintCase, l: &mut Local| check_mint(c, l)),
         ],
     }
 }
